@@ -3,10 +3,10 @@
    covered operators: all of Sql/Query.v's `query` except VALUES, all of `expr` except a bare NULL literal). *)
 From QV Require Import Sql.Query C30.Model C30.Proofs.
 
-(* expression typing is sound for the SQL semantics: a typed expression never yields VErr and
-   yields a value of its type (NULL inhabits every type) *)
-Theorem C30_tyof_sound : forall r32, is_int r32 = true -> forall S env r,
-  row_has_types r env = true -> forall e t, tyof r32 env e = Some t -> has_ty (eval S r e) t = true.
+(* expression typing is sound for the SQL semantics: a typed expression never yields VErr and yields a value
+   of its type (NULL inhabits every type); for the planner's typing after (true) and before (false) 4f06458 *)
+Theorem C30_tyof_sound : forall same_arm S env r,
+  row_has_types r env = true -> forall e t, tyof same_arm env e = Some t -> has_ty (eval S r e) t = true.
 Proof. exact tyof_sound. Qed.
 
 (* type preservation: every row a well-typed query returns has the reported column count and types *)
@@ -18,20 +18,41 @@ Proof. exact rows_conform. Qed.
 Theorem C30_schema_width : forall dbs q env, schema_of dbs q = Some env -> length env = width q.
 Proof. exact schema_width_reported. Qed.
 
-(* the kernels' typing (Int32 op Int32 stays Int32) is preserved as well; the two typings differ exactly on
-   the recorded class i32-arith, which is inhabited *)
-Theorem C30_rows_conform_returned : forall dbs db q env,
-  db_conforms db dbs -> returned_schema_of dbs q = Some env ->
-  forall r, In r (qeval sql_qsem db q) -> row_has_types r env = true.
-Proof. exact rows_conform_returned. Qed.
-
-Theorem C30_i32_arith_witness :
+(* regression (class i32-arith, closed by fix: 4f06458): Int32 + Int32 is planned Int32, was planned Int64 *)
+Theorem C30_i32_arith_regression :
   let q := QProject (QTable 0 1) [EArith AAdd (ECol 0) (ECol 0)] in
-  schema_of [[TI32]] q = Some [TI64] /\ returned_schema_of [[TI32]] q = Some [TI32] /\ known_i32_arith [[TI32]] q = true.
-Proof. exact i32_arith_witness. Qed.
+  schema_of [[TI32]] q = Some [TI32] /\ schema_before_4f06458 [[TI32]] q = Some [TI64].
+Proof. exact i32_arith_regression. Qed.
+
+(* the planner's coerce_numeric_types on every pair of modelled numeric types *)
+Theorem C30_coerce_table :
+  map (fun a => map (coerce_numeric true a) [TI8; TI16; TI32; TI64; TF32; TF64]) [TI8; TI16; TI32; TI64; TF32; TF64]
+  = [[TI8;  TI32; TI64; TI64; TF64; TF64];
+     [TI32; TI16; TI64; TI64; TF64; TF64];
+     [TI64; TI64; TI32; TI64; TF64; TF64];
+     [TI64; TI64; TI64; TI64; TF64; TF64];
+     [TF64; TF64; TF64; TF64; TF32; TF64];
+     [TF64; TF64; TF64; TF64; TF64; TF64]].
+Proof. exact coerce_table. Qed.
+
+(* class union-all-mixed-types (shape predicate) is inhabited by UNION ALL only *)
+Theorem C30_union_mixed_witness :
+  let q := QSetOp SUnion true (QProject (QTable 0 2) [ECol 1]) (QProject (QTable 0 2) [ECol 0]) in
+  schema_of [[TI64; TI32]] q = Some [TI32] /\ known_union_mixed [[TI64; TI32]] q = true
+  /\ known_union_mixed [[TI64; TI32]] (QSetOp SUnion false (QProject (QTable 0 2) [ECol 1]) (QProject (QTable 0 2) [ECol 0])) = false.
+Proof. exact union_mixed_witness. Qed.
+
+(* class case-float64-widening (shape predicate): integer THEN, Float64 ELSE is in it; the reverse order is not *)
+Theorem C30_case_widen_witness :
+  let e := ECase [(ECmp CGt (ECol 0) (ELit (VInt 0)), ECol 0)] (Some (ELit (VDbl (3 # 2)))) in
+  case_fold [TI64; TF64] = Some TF64 /\ known_case_widen [[TI64]] (QProject (QTable 0 1) [e]) = true
+  /\ known_case_widen [[TI64]] (QProject (QTable 0 1) [ECase [(ECmp CGt (ECol 0) (ELit (VInt 0)), ELit (VDbl (3 # 2)))] (Some (ECol 0))]) = false.
+Proof. exact case_widen_witness. Qed.
 
 Print Assumptions C30_tyof_sound.
 Print Assumptions C30_rows_conform.
 Print Assumptions C30_schema_width.
-Print Assumptions C30_rows_conform_returned.
-Print Assumptions C30_i32_arith_witness.
+Print Assumptions C30_i32_arith_regression.
+Print Assumptions C30_coerce_table.
+Print Assumptions C30_union_mixed_witness.
+Print Assumptions C30_case_widen_witness.
